@@ -24,6 +24,7 @@ import (
 	"strconv"
 	"strings"
 	"sync"
+	"syscall"
 	"time"
 
 	"fgverif/kern"
@@ -150,6 +151,7 @@ func runnableLevels(self string) (levels []int, detected int, notes []string) {
 }
 
 func runWithTimeout(cmd *exec.Cmd, d time.Duration) error {
+	cmd.SysProcAttr = &syscall.SysProcAttr{Setpgid: true}
 	if err := cmd.Start(); err != nil {
 		return err
 	}
@@ -159,6 +161,7 @@ func runWithTimeout(cmd *exec.Cmd, d time.Duration) error {
 	case err := <-done:
 		return err
 	case <-time.After(d):
+		syscall.Kill(-cmd.Process.Pid, syscall.SIGKILL) // the whole process group
 		cmd.Process.Kill()
 		<-done
 		return fmt.Errorf("timeout after %v", d)
@@ -191,6 +194,7 @@ type workerLine struct {
 }
 
 func cmdWorker(a []string) {
+	hangProp = a[0]
 	if pf := os.Getenv("FGSIM_CPUPROFILE"); pf != "" {
 		f, _ := os.Create(pf)
 		pprof.StartCPUProfile(f)
@@ -252,14 +256,22 @@ func cmdWorker(a []string) {
 	w.Flush()
 }
 
+// hangLimit is the per-run-index wall-clock guard. Run indices that sweep a
+// fault dimension legitimately take minutes; all others take milliseconds.
 func hangLimit() time.Duration {
 	if s := os.Getenv("VERIF_HANG_SECONDS"); s != "" {
 		if v, err := strconv.Atoi(s); err == nil {
 			return time.Duration(v) * time.Second
 		}
 	}
-	return 300 * time.Second
+	switch hangProp {
+	case "C03", "C07", "C14", "C15":
+		return 300 * time.Second
+	}
+	return 60 * time.Second
 }
+
+var hangProp string
 
 // ---------------------------------------------------------------- replay
 
@@ -290,17 +302,11 @@ func reexecAtLevel(level int) (reexeced bool, code int) {
 		fmt.Fprintf(os.Stderr, "cannot force acceleration level %d (have %d)\n", level, archLevel())
 		return true, exitInfra
 	}
+	// replace this process (same pid, so the parent's timeout kill reaches it)
 	self, _ := os.Executable()
-	cmd := exec.Command(self, os.Args[1:]...)
-	cmd.Env = append(os.Environ(), fmt.Sprintf("FASTGO_VERIF_ARCHLEVEL=%d", level), "FGSIM_REEXEC=1")
-	cmd.Stdout, cmd.Stderr = os.Stdout, os.Stderr
-	err := cmd.Run()
-	if err == nil {
-		return true, 0
-	}
-	if ee, ok := err.(*exec.ExitError); ok {
-		return true, ee.ExitCode()
-	}
+	env := append(os.Environ(), fmt.Sprintf("FASTGO_VERIF_ARCHLEVEL=%d", level), "FGSIM_REEXEC=1")
+	err := syscall.Exec(self, append([]string{self}, os.Args[1:]...), env)
+	fmt.Fprintln(os.Stderr, "re-exec failed:", err)
 	return true, exitInfra
 }
 
@@ -315,6 +321,7 @@ func cmdReplay(path string) int {
 		fmt.Fprintln(os.Stderr, "replay: unknown property", tr.Property)
 		return exitInfra
 	}
+	hangProp = tr.Property
 	if strings.HasSuffix(tr.Oracle, ".level_diff") {
 		return replayLevelDiff(path, tr)
 	}
@@ -335,6 +342,13 @@ func cmdReplay(path string) int {
 		case <-time.After(hangLimit()):
 			fmt.Printf("VIOLATION property=%s replay=%s\n  oracle=%s still running after %v\n", tr.Property, path, tr.Oracle, hangLimit())
 			return exitViolation
+		}
+	}
+	if pl := tr.Prelude; pl != nil {
+		for i := 0; i < tr.Index; i++ {
+			if i%pl.NShards == pl.Shard {
+				safeExec(p, genTrace(p, pl.Tier, tr.Seed, i), false)
+			}
 		}
 	}
 	out := safeExec(p, tr, os.Getenv("FGSIM_VERBOSE") != "")
@@ -439,7 +453,13 @@ func cmdMinimize(in, outPath string) int {
 			}
 			attempts++
 			cand.Sweep = false
-			o := safeExec(p, cand, false)
+			o := execWithin(p, cand, 45*time.Second)
+			if o == nil {
+				// a candidate that does not terminate: keep what we have
+				fmt.Fprintln(os.Stderr, "minimize: a candidate ran into the watchdog; stopping with the current trace")
+				finishMinimize(p, cur, tr, oracle, outPath, attempts)
+				os.Exit(exitOK)
+			}
 			if cv := hasOracle(o, oracle); cv != nil {
 				next := cv.Trace
 				if next == nil {
@@ -453,13 +473,18 @@ func cmdMinimize(in, outPath string) int {
 			}
 		}
 	}
+	return finishMinimize(p, cur, tr, oracle, outPath, attempts)
+}
+
+func finishMinimize(p props.Property, cur, tr *props.Trace, oracle, outPath string, attempts int) int {
 	cur.Oracle = oracle
 	cur.Level = tr.Level
 	cur.Seed, cur.Index = tr.Seed, tr.Index
-	fo := safeExec(p, cur, false)
-	if fv := hasOracle(fo, oracle); fv != nil {
-		cur.Detail = fv.Detail
-		cur.LogHash = fo.LogHash
+	if fo := execWithin(p, cur, 45*time.Second); fo != nil {
+		if fv := hasOracle(fo, oracle); fv != nil {
+			cur.Detail = fv.Detail
+			cur.LogHash = fo.LogHash
+		}
 	}
 	if err := saveTrace(outPath, cur); err != nil {
 		fmt.Fprintln(os.Stderr, "minimize:", err)
@@ -467,6 +492,18 @@ func cmdMinimize(in, outPath string) int {
 	}
 	fmt.Fprintf(os.Stderr, "minimize: %d attempts, weight %d -> %d\n", attempts, props.Weight(tr), props.Weight(cur))
 	return exitOK
+}
+
+// execWithin runs the trace with a wall-clock guard; nil = did not finish.
+func execWithin(p props.Property, tr *props.Trace, d time.Duration) *props.Outcome {
+	done := make(chan *props.Outcome, 1)
+	go func() { done <- safeExec(p, tr, false) }()
+	select {
+	case o := <-done:
+		return o
+	case <-time.After(d):
+		return nil
+	}
 }
 
 // ---------------------------------------------------------------- known findings
@@ -550,6 +587,8 @@ type agg struct {
 	infra     []string
 }
 
+var batchDeadline time.Time
+
 type levelViolation struct {
 	level int
 	idx   int
@@ -600,6 +639,16 @@ func cmdCheck(id, tier string) int {
 	}
 	a := &agg{sigs: map[uint64]struct{}{}, stats: map[string]int{}, digests: map[int]map[int]uint64{}, indep: map[int]bool{}, inhash: map[int]map[int]uint64{}, runsDone: map[int]int{}}
 	var wg sync.WaitGroup
+	batchLimit := 12 * time.Minute
+	if tier == "thorough" {
+		batchLimit = 150 * time.Minute
+	}
+	if s := os.Getenv("VERIF_BATCH_SECONDS"); s != "" {
+		if v, err := strconv.Atoi(s); err == nil {
+			batchLimit = time.Duration(v) * time.Second
+		}
+	}
+	batchDeadline = time.Now().Add(batchLimit)
 	for _, l := range levels {
 		for s := 0; s < shards; s++ {
 			wg.Add(1)
@@ -610,6 +659,12 @@ func cmdCheck(id, tier string) int {
 		}
 	}
 	wg.Wait()
+	if a.stats["shards_cut_by_batch_deadline"] > 0 {
+		fmt.Printf("note: batch watchdog (%v) reached; %d worker shard(s) were stopped early\n", batchLimit, a.stats["shards_cut_by_batch_deadline"])
+		if a.violCount == 0 {
+			a.infra = append(a.infra, "batch watchdog reached without any violation: the machine is too slow or a worker is stuck between runs")
+		}
+	}
 	if id == "C17" && os.Getenv("VERIF_NO_RACE_PASS") == "" {
 		racePhase(vd, seed, tier, levels, a)
 	}
@@ -726,10 +781,29 @@ func cmdCheck(id, tier string) int {
 			replayPath = raw
 			code, outp = runReplay(self, replayPath)
 		}
+		if code != exitViolation && !strings.HasSuffix(tr.Oracle, ".level_diff") && !strings.HasSuffix(tr.Oracle, ".hang") {
+			// state surviving from run to run inside the worker process? replay
+			// the shard's earlier run indices first
+			pt := genTrace(p, tier, seed, g.first.idx)
+			pt.Level, pt.Oracle, pt.Detail = g.first.level, g.first.v.Oracle, g.first.v.Detail
+			pt.Prelude = &props.Prelude{Tier: tier, Shard: g.first.idx % shards, NShards: shards}
+			pre := base + ".prelude.json"
+			saveTrace(pre, pt)
+			if c2, o2 := runReplay(self, pre); c2 == exitViolation {
+				replayPath, code, outp = pre, c2, o2
+			}
+		}
 		if code != exitViolation && strings.HasSuffix(g.first.v.Oracle, ".hang") {
 			// a slow run, not a hang: it finished when retried alone (DESIGN 2.8)
 			fmt.Printf("note: run %d at level %d exceeded the per-run watchdog in its worker but finished when retried alone; not a hang\n", g.first.idx, g.first.level)
 			a.stats["slow_runs_retried"]++
+			continue
+		}
+		if code != exitViolation && exit == exitViolation {
+			// another violation of this batch is already confirmed: report this
+			// one as unconfirmed instead of turning the verdict into exit 2
+			fmt.Printf("note: %s (run %d, level %d, %d occurrences) was observed in a worker but did not reproduce in a fresh process (process-global state of the code under test?); not counted\n", g.first.v.Oracle, g.first.idx, g.first.level, g.count)
+			a.stats["violations_not_reproduced"]++
 			continue
 		}
 		if code != exitViolation {
@@ -811,6 +885,11 @@ func runShard(self string, p props.Property, tier string, seed uint64, level, sh
 		dec := json.NewDecoder(bufio.NewReaderSize(stdout, 1<<20))
 		cur := -1
 		done := false
+		cut := false
+		stopTimer := time.AfterFunc(time.Until(batchDeadline), func() {
+			cut = true
+			cmd.Process.Kill()
+		})
 		for {
 			var wl workerLine
 			if err := dec.Decode(&wl); err != nil {
@@ -829,7 +908,14 @@ func runShard(self string, p props.Property, tier string, seed uint64, level, sh
 		}
 		io.Copy(io.Discard, stdout)
 		err := cmd.Wait()
+		stopTimer.Stop()
 		if done && err == nil {
+			return
+		}
+		if cut {
+			a.mu.Lock()
+			a.stats["shards_cut_by_batch_deadline"]++
+			a.mu.Unlock()
 			return
 		}
 		// abnormal end
@@ -856,9 +942,11 @@ func runShard(self string, p props.Property, tier string, seed uint64, level, sh
 		a.mu.Unlock()
 		start = cur + 1
 		restarts++
-		if restarts > 20 {
+		if restarts >= 3 {
+			// three crashes/hangs in one shard: enough to report; do not spend
+			// the batch waiting on more watchdog timeouts
 			a.mu.Lock()
-			a.infra = append(a.infra, fmt.Sprintf("worker level %d shard %d died more than 20 times", level, shard))
+			a.stats["shards_abandoned_after_3_crashes_or_hangs"]++
 			a.mu.Unlock()
 			return
 		}
